@@ -38,6 +38,28 @@ def scenarios(rng, tier, runner):
         out.append(Scenario("wire-%d" % i, ls, meta))
     from props import c02
     out += c02.string_family(rng, 40 if tier == "quick" else 600, lambda nsub: ["ds.invalid", "ds.encode 1", "spec.decode"])
+    # a dataset that carries the COMPRESSED flag (decoded from a compressed message) and is then given a subset of
+    # another shape: whatever compression is asked for, Section 3 must say what Section 4 is (added after a seeded
+    # change kept the stale flag and wrote subsets of different structure column-wise)
+    from gen import regs
+    for i in range(40 if tier == "quick" else 600):
+        name = rng.choice(["cur", "loc", "syn"])
+        B, D = P[name]
+        nsub = rng.choice([2, 3])
+        while True:
+            ls, meta = datasets.build_lines(rng, name, B, D, nsub=nsub, same_structure=True, depth=rng.choice([1, 2, 2, 3]))
+            if not any(d // 1000 == 203 for d in meta["template"]) and regs.operators_defined(meta["ed"], meta["template"], D):
+                break
+        ls += ["ds.invalid", "ds.encode 1", "ds.decodelast 1 0 0", "dd.tocur", "ss.new",
+               "ss.setfactors %d %s" % (nsub, rng.choice(datasets.FACTOR_SETS)), "ss.expand %d" % nsub,
+               "ss.setfactors %d %s" % (nsub, rng.choice(datasets.FACTOR_SETS)), "ss.expand %d" % nsub,
+               "ss.fill %d %d %d" % (nsub, rng.randrange(1, 2 ** 31), rng.choice([0, 1, 1, 4]))]
+        for k in range(nsub + 1):
+            ls += ["ss.list %d" % k, "ss.vals %d" % k]
+        comp = rng.choice([1, 0, -1])
+        ls += ["ds.invalid", "ds.encode %d" % comp, "spec.decode"]
+        meta = dict(meta); meta["nsub"] = nsub + 1; meta["comp"] = comp; meta["family"] = "flagged"
+        out.append(Scenario("flagged-%d" % i, ls, meta))
     return out
 
 def two_pass(scn, c_out):
